@@ -1182,6 +1182,15 @@ static PyObject*
 _getcache(LB* self, PyObject* provided, PyObject* name)
 {
     PyObject* cache;
+    int named = 0;
+
+    /* Testing `name` can run arbitrary code (a str subclass may define
+       __bool__), which can drop our caches: do it before fetching them. */
+    if (name != NULL) {
+        named = PyObject_IsTrue(name);
+        if (named < 0)
+            return NULL;
+    }
 
     ASSURE_DICT(self->_cache);
 
@@ -1189,7 +1198,7 @@ _getcache(LB* self, PyObject* provided, PyObject* name)
     if (cache == NULL)
         return NULL;
 
-    if (name != NULL && PyObject_IsTrue(name))
+    if (named)
         cache = _subcache(cache, name);
 
     return cache;
@@ -1240,6 +1249,10 @@ _lookup(LB* self,
     cache = _getcache(self, provided, name);
     if (cache == NULL)
         return NULL;
+    /* `_uncached_lookup` (or another thread meanwhile) can call `changed()`,
+       which releases the caches; keep the dictionary we store into alive.
+       Like the Python implementation, we then fill a detached dictionary. */
+    Py_INCREF(cache);
 
     if (PyTuple_GET_SIZE(required) == 1)
         key = PyTuple_GET_ITEM(required, 0);
@@ -1253,10 +1266,12 @@ _lookup(LB* self,
         result = PyObject_CallMethodObjArgs(
           OBJECT(self), str_uncached_lookup, required, provided, name, NULL);
         if (result == NULL) {
+            Py_DECREF(cache);
             Py_DECREF(required);
             return NULL;
         }
         status = PyDict_SetItem(cache, key, result);
+        Py_DECREF(cache);
         Py_DECREF(required);
         if (status < 0) {
             Py_DECREF(result);
@@ -1264,6 +1279,7 @@ _lookup(LB* self,
         }
     } else {
         Py_INCREF(result);
+        Py_DECREF(cache);
         Py_DECREF(required);
     }
 
@@ -1504,6 +1520,8 @@ _lookupAll(LB* self, PyObject* required, PyObject* provided)
     cache = _subcache(self->_mcache, provided);
     if (cache == NULL)
         return NULL;
+    /* keep the cache alive across the call back into Python, see _lookup */
+    Py_INCREF(cache);
 
     result = PyDict_GetItem(cache, required);
     if (result == NULL) {
@@ -1512,10 +1530,12 @@ _lookupAll(LB* self, PyObject* required, PyObject* provided)
         result = PyObject_CallMethodObjArgs(
           OBJECT(self), str_uncached_lookupAll, required, provided, NULL);
         if (result == NULL) {
+            Py_DECREF(cache);
             Py_DECREF(required);
             return NULL;
         }
         status = PyDict_SetItem(cache, required, result);
+        Py_DECREF(cache);
         Py_DECREF(required);
         if (status < 0) {
             Py_DECREF(result);
@@ -1523,6 +1543,7 @@ _lookupAll(LB* self, PyObject* required, PyObject* provided)
         }
     } else {
         Py_INCREF(result);
+        Py_DECREF(cache);
         Py_DECREF(required);
     }
 
@@ -1572,6 +1593,8 @@ _subscriptions(LB* self, PyObject* required, PyObject* provided)
     cache = _subcache(self->_scache, provided);
     if (cache == NULL)
         return NULL;
+    /* keep the cache alive across the call back into Python, see _lookup */
+    Py_INCREF(cache);
 
     result = PyDict_GetItem(cache, required);
     if (result == NULL) {
@@ -1580,10 +1603,12 @@ _subscriptions(LB* self, PyObject* required, PyObject* provided)
         result = PyObject_CallMethodObjArgs(
           OBJECT(self), str_uncached_subscriptions, required, provided, NULL);
         if (result == NULL) {
+            Py_DECREF(cache);
             Py_DECREF(required);
             return NULL;
         }
         status = PyDict_SetItem(cache, required, result);
+        Py_DECREF(cache);
         Py_DECREF(required);
         if (status < 0) {
             Py_DECREF(result);
@@ -1591,6 +1616,7 @@ _subscriptions(LB* self, PyObject* required, PyObject* provided)
         }
     } else {
         Py_INCREF(result);
+        Py_DECREF(cache);
         Py_DECREF(required);
     }
 
@@ -1793,15 +1819,26 @@ _verify(VB* self)
     PyObject* changed_result;
 
     if (self->_verify_ro != NULL && self->_verify_generations != NULL) {
-        PyObject* generations;
+        PyObject *generations, *verify_ro, *verify_generations;
         int changed;
 
-        generations = _generations_tuple(self->_verify_ro);
-        if (generations == NULL)
+        /* Reading the generations runs arbitrary code, which can call
+           `changed()` and replace both tuples: own them meanwhile. */
+        verify_ro = self->_verify_ro;
+        Py_INCREF(verify_ro);
+        verify_generations = self->_verify_generations;
+        Py_INCREF(verify_generations);
+
+        generations = _generations_tuple(verify_ro);
+        Py_DECREF(verify_ro);
+        if (generations == NULL) {
+            Py_DECREF(verify_generations);
             return -1;
+        }
 
         changed = PyObject_RichCompareBool(
-          self->_verify_generations, generations, Py_NE);
+          verify_generations, generations, Py_NE);
+        Py_DECREF(verify_generations);
         Py_DECREF(generations);
         if (changed == -1)
             return -1;
